@@ -24,7 +24,7 @@ NAME = "H"
 PROPERTY = "C12"
 RUNS = {"quick": 220, "thorough": 5000}
 RUN_WALL_CAP = 300.0
-REQUIRED_PROBES = {"quick": ["kets_list", "density_list", "hierarchy_not_last", "hierarchy_then_ppt", "level2", "dims_2x3", "complex_states", "bell_list", "primal_value", "local_unitary_checked", "two_lists_same_shape", "same_ensemble_parties_swapped", "same_ensemble_other_order", "same_array_object_twice", "mixed_dtype_ensemble"], "thorough": ["kets_list", "density_list", "hierarchy_not_last", "hierarchy_then_ppt", "level2", "level2_2x3", "dims_2x3", "complex_states", "bell_list", "primal_value", "local_unitary_checked"]}
+REQUIRED_PROBES = {"quick": ["kets_list", "density_list", "hierarchy_not_last", "hierarchy_then_ppt", "level2", "dims_2x3", "complex_states", "bell_list", "primal_value", "local_unitary_checked", "two_lists_same_shape", "same_ensemble_parties_swapped", "same_ensemble_other_order", "same_array_object_twice", "mixed_dtype_ensemble", "generalised_bell_kets", "dominant_white_state"], "thorough": ["kets_list", "density_list", "hierarchy_not_last", "hierarchy_then_ppt", "level2", "level2_2x3", "dims_2x3", "complex_states", "bell_list", "primal_value", "local_unitary_checked"]}
 COMPONENTS = {"real": ["toqito.state_opt.ppt_distinguishability (primal and dual)", "toqito.state_opt.symmetric_extension_hierarchy", "toqito.state_opt.state_distinguishability", "toqito.channels.partial_trace / partial_transpose (cvxpy branch)", "toqito.perms.symmetric_projection", "picos + cvxopt, cvxpy + SCS/Clarabel"], "stub": []}
 RULE = ("one run = one caller-owned list of 2..4 states on 2x2, 2x3 or 3x2, sometimes with a second list used in between (same shape, another shape, or the same ensemble with the two parties written in the other order) (column kets / density matrices / 1-D vectors where accepted; real and complex; arbitrary prior; or the four Bell kets) reused by 3..6 calls in seeded order: "
         "ppt_distinguishability (party 0 or 1, primal or dual), symmetric_extension_hierarchy (level 1 or 2, dim as list / scalar / omitted), state_distinguishability; "
@@ -72,6 +72,29 @@ def draw_states(st, run_index, like=None):
     n = st.int_range(2, 4)
     if like is not None:
         n = like["n"]
+    if kind == "kets" and like is None and (st.draw(8) == 0 or run_index % 16 == 5):
+        # generalised Bell kets in the computational basis: |psi_{s,m}> = sum_j w^{jm} |j, (j+s) mod d_big> / sqrt(d_small).
+        # Mutually orthonormal, all maximally entangled, yet with very regular amplitude patterns - what a
+        # "these are orthogonal product states, skip the solver" shortcut with an index slip mistakes for products
+        # (square systems hide such slips: the wrong reshape is then just the transpose)
+        small, big = min(dims), max(dims)
+        labels = [(s_, m_) for s_ in range(big) for m_ in range(small)]
+        picked = []
+        for _ in range(n):
+            picked.append(labels.pop(st.draw(len(labels))))
+        L = []
+        for s_, m_ in picked:
+            v = np.zeros((dims[0], dims[1]), dtype=complex if small > 2 else float)
+            for j in range(small):
+                amp = np.exp(2j * np.pi * j * m_ / small) if small > 2 else (-1.0) ** (j * m_)
+                if dims[0] <= dims[1]:
+                    v[j, (j + s_) % big] = amp
+                else:
+                    v[(j + s_) % big, j] = amp
+            v = v.reshape(d, 1) / np.sqrt(small)
+            L.append(v)
+        probs = [1.0 / n] * n if st.draw(2) else None
+        return L, probs, dims, {"kind": "kets", "dims": dims, "n": n, "complex": bool(small > 2), "prior": "uniform" if probs else "default_none", "family": "generalised_bell", "labels": [list(t) for t in picked]}
     L = []
     # a complex ensemble whose arrays do not all have a complex dtype: the first (and some other) states are real
     # arrays, one of them possibly an integer-typed basis state - what the FIRST array looks like says nothing
@@ -100,7 +123,20 @@ def draw_states(st, run_index, like=None):
                 v = rng.standard_normal(d) + (1j * rng.standard_normal(d) if cplx else 0)
             v = v / np.linalg.norm(v)
             L.append(v.reshape(d, 1) if kind == "kets" else v)
+    dominant = None
+    if kind == "density" and like is None and st.draw(4) == 0:
+        # one nearly white, full-rank state with a large prior next to states with small priors: the weighted
+        # smallest eigenvalue of one state can exceed the weighted largest eigenvalue of another
+        dominant = st.draw(n)
+        eps = [0.02, 0.1, 0.3][st.draw(3)]
+        L[dominant] = (1 - eps) * np.eye(d) / d + eps * L[dominant]
     pk = st.weighted([("uniform", 2), ("random", 3), ("default_none", 1), ("with_zero", 1)])
+    if dominant is not None:
+        pk = "dominant"
+        w = rng.random(n) * 0.15 + 0.02
+        w[dominant] = 1.0
+        probs = list((w / w.sum()).tolist())
+        probs[-1] = 1.0 - sum(probs[:-1])
     if pk == "with_zero" and n >= 3:
         # a state that is listed but never prepared: an exact zero in the prior, at any position
         w = rng.random(n) + 0.05
@@ -109,7 +145,7 @@ def draw_states(st, run_index, like=None):
         probs[int(np.argmax(probs))] += 1.0 - sum(probs)
     elif pk == "with_zero":
         pk = "random"
-    if pk == "with_zero":
+    if pk in ("with_zero", "dominant"):
         pass
     elif pk == "random":
         w = rng.random(n) + 0.05
@@ -241,6 +277,10 @@ def run(cs, tier, run_index):
         res.probe("complex_states")
     if "dtypes" in meta:
         res.probe("mixed_dtype_ensemble")
+    if meta.get("family") == "generalised_bell":
+        res.probe("generalised_bell_kets")
+    if meta.get("prior") == "dominant":
+        res.probe("dominant_white_state")
     if meta["kind"] in ("kets", "density") and len(L) <= 3 and cs.s("config:dup").draw(6) == 0:
         # the caller may list the same array object twice (two equal states with separate priors)
         L.append(L[0])
